@@ -25,6 +25,7 @@ type DriveOpts struct {
 	ShardBin   string // binary used for shard processes (may be the -race build)
 	Root       string // /verif
 	ReplayDir  string // non-empty: replay this directory instead of running the workload
+	OutRoot    string // where evidence/ and replay/ go (default Root; scratch copies of the repo get their own)
 	RaceBinary bool
 }
 
@@ -251,7 +252,10 @@ func Drive(spec *Spec, o DriveOpts) int {
 		return 3
 	}
 	defer os.RemoveAll(workRoot)
-	replayRoot := filepath.Join(o.Root, "replay", prop)
+	if o.OutRoot == "" {
+		o.OutRoot = o.Root
+	}
+	replayRoot := filepath.Join(o.OutRoot, "replay", prop)
 	if o.ReplayDir == "" {
 		_ = os.RemoveAll(replayRoot)
 	}
@@ -346,7 +350,11 @@ func Drive(spec *Spec, o DriveOpts) int {
 		case "ok":
 		case "hang", "memory", "died":
 			// the witness of a crash/hang finding reproduces by killing its process
-			if f.Match["kind"] == out.kind || (f.Match["kind"] == "fatal" && out.kind == "died") {
+			k := out.kind
+			if k == "died" {
+				k = "fatal"
+			}
+			if (Finding{Match: map[string]string{"kind": f.Match["kind"]}}).Matches(map[string]string{"kind": k}) {
 				ok = true
 				detail = out.kind + ": " + firstFatalLine(out.stderr)
 			} else {
@@ -541,8 +549,8 @@ func Drive(spec *Spec, o DriveOpts) int {
 		ev["coverage"].(map[string]any)["samples"] = []any{}
 	}
 	b, _ := json.MarshalIndent(ev, "", " ")
-	_ = os.MkdirAll(filepath.Join(o.Root, "evidence"), 0o755)
-	if err := os.WriteFile(filepath.Join(o.Root, "evidence", prop+".json"), b, 0o644); err != nil {
+	_ = os.MkdirAll(filepath.Join(o.OutRoot, "evidence"), 0o755)
+	if err := os.WriteFile(filepath.Join(o.OutRoot, "evidence", prop+".json"), b, 0o644); err != nil {
 		fmt.Printf("INCONCLUSIVE property=%s cannot write evidence: %v\n", prop, err)
 		return 3
 	}
